@@ -328,7 +328,7 @@ var xBadPolicies = []string{"subject:CN:example.com", "subject:O:NUTS", "subject
 	"san:dns:evil.example.com", "san:email:info@example.org", "san:ip:192.1.2.5", "san:otherName:A_BIG", "san:otherName:", "subject:L:Amsterdam:C:BE",
 	"subject:CN", "subject:L:Amsterdam:C", "subject", "", "eku:1.2.3", "Subject:CN:www.example.com", "SAN:dns:example.com", "subject:cn:www.example.com",
 	"subject:XX:1", "san:CN:www.example.com", "subject:dns:www.example.com", "subject:O:%zz", "subject:O:NUTS%2", "san:dns:www.example.com%",
-	"subject:CN:", "subject::", "san:ip:192.001.002.003", "subject:PostalCode:1011%20NL"}
+	"subject:CN:", "subject::", "subject:CN:WWW.EXAMPLE.COM", "subject:O:nuts%20foundation", "san:dns:WWW.example.com", "subject:CN:www.example.com:O:NUTS", "san:otherName:A_BIG_STRING:otherName:NOPE", "san:ip:192.001.002.003", "subject:PostalCode:1011%20NL"}
 
 func xGenID(r *rand.Rand, ids []int, sign int) (string, string) {
 	version := "0"
